@@ -171,7 +171,8 @@ CHECKS = {
         'legs': [
             {'engine': 'streamsim', 'config': 'asan', 'runs': [300000, 6000000]},
             {'engine': 'streamsim', 'config': 'asan32', 'runs': [100000, 2000000]},
-            {'engine': 'streamsim', 'config': 'plain', 'runs': [600000, 60000000]},
+            {'engine': 'streamsim', 'config': 'plain', 'runs': [400000, 40000000]},
+            {'engine': 'streamsim', 'config': 'release', 'runs': [400000, 40000000]},
         ],
         'rule': ('a case is one simulated stream for one of 21 Start/Step/Get bundles: message of 0..~4 internal blocks, cut into 1..7 '
                  'fragments by the simulated source (boundaries biased to block-1/block/block+1/0, empty fragments where the header allows), '
